@@ -139,3 +139,49 @@ func runRawRecvScenario(c *Ctx, kind int, nops int) {
 	}
 	e.Finish()
 }
+
+// directed: a queue-length change while a receiver holds a message for the full queue.  Whatever becomes of the held
+// message (the raw request-id sockets drop it), what Recv returns afterwards must be a message a peer sent, whole:
+// header = its first four bytes, body = the rest.
+func runRawRecvResizeWithHeld(c *Ctx, kind int) {
+	var proto mangos.ProtocolBase
+	name := "xreq"
+	if kind%2 == 1 {
+		proto = xsurveyor.NewProtocol()
+		name = "xsurveyor"
+	} else {
+		proto = xreq.NewProtocol()
+	}
+	e := NewExec(c, "m.rawq", proto, name)
+	e.SetOpt(0, mangos.OptionReadQLen, "1", 1)
+	e.AddPipe(521)
+	msgs := [][]byte{
+		{0x80, 1, 0, 1, 'q', 'u', 'e', 'u', 'e', 'd'},
+		{0x80, 1, 0, 2, 0x20, 0x21, 0x22, 0x23, 'h', 'e', 'l', 'd'},
+		{0x80, 1, 0, 3, 'l', 'a', 't', 'e', 'r'},
+	}
+	sent := map[string]bool{}
+	for _, m := range msgs {
+		sent[string(m)] = true
+	}
+	e.Inject(521, msgs[0])
+	e.Inject(521, msgs[1])
+	e.SetOpt(0, mangos.OptionReadQLen, "2", 2)
+	e.Inject(521, msgs[2])
+	for k := 0; k < 3 && !e.broken; k++ {
+		if e.ParkedRecvs() > 0 {
+			break
+		}
+		e.Recv(0)
+		for _, ev := range splitEvents(lastObs(e)) {
+			if ev.kind != "ret" || ev.msg == nil {
+				continue
+			}
+			whole := append(append([]byte{}, ev.hdr...), ev.msg...)
+			if len(ev.hdr) != 4 || !sent[string(whole)] {
+				c.Violate(fmt.Sprintf("%s: after a READQ-LEN change made while a receiver was holding a message for the full queue, Recv returned header %x body %x — not a message any peer sent (sent: %x, %x, %x)", name, ev.hdr, ev.msg, msgs[0], msgs[1], msgs[2]), e.Replay())
+			}
+		}
+	}
+	e.Finish()
+}
